@@ -20,7 +20,9 @@
                      execute_insert_internal and caches a plan); needs one parameter per column
      insert_batch    the bulk-load API
    Both write the id values as given - NULL stays NULL, nothing is generated - and leave the
-   header counter alone ([Bulk] below). *)
+   header counter alone ([Bulk] below).  Only insert_cached is exercised by the correspondence
+   run (rows loaded by insert_batch are not reliably visible to SELECT, so what the column holds
+   cannot be observed there); for insert_batch [Bulk] is a reading of the code only. *)
 From Coq Require Import ZArith List Bool.
 From TV Require Import Lib.MachInt.
 Import ListNotations.
@@ -188,6 +190,19 @@ Fixpoint known_class_from (ai : Z) (h : list op) : Z :=
   | _ :: t => known_class_from ai t
   end.
 Definition known_class (h : list op) : Z := known_class_from 0 h.
+
+(* ------------------------------------------------------------------ column width
+   The counter and the ids above are u64 / i64.  The id column may be narrower (SMALLINT 16,
+   INTEGER 32, BIGINT 64 bits): RecordBuilder::set_int_auto stores `value as i16` / `value as i32`
+   without a range check, so what the column holds (and SELECT shows) is the wrapped value, while
+   RETURNING shows the id above. *)
+Definition stored (w id : Z) : Z := wrap_s w id.
+Definition trace_w (w : Z) (h : list op) : list (Z * bool) :=
+  map (fun x => (stored w (fst x), snd x)) (trace h).
+(*   5  an id outside the range of the id column's integer type is written: it is stored wrapped *)
+Definition known_class_w (w : Z) (h : list op) : Z :=
+  let c := known_class h in
+  if c =? 0 then (if forallb (fun x => in_s w (fst x)) (trace h) then 0 else 5) else c.
 
 Definition is_insert (o : op) : bool := match o with Insert _ _ | Bulk _ _ => true | _ => false end.
 Definition single_row (h : list op) : Prop :=
